@@ -2,6 +2,7 @@
 
 use crate::{
     CachedStringBlock, DbcHeader, Error, FieldType, Result, Schema, StringBlock, StringRef,
+    field_parser::bounded_capacity,
     types::*,
     versions::{DbcVersion, Wdb2Header, Wdb5Header},
 };
@@ -371,7 +372,11 @@ impl DbcParser {
         // Skip to the record data (uses version-specific offset)
         cursor.seek(SeekFrom::Start(self.record_data_offset))?;
 
-        let mut records = Vec::with_capacity(self.header.record_count as usize);
+        let mut records = Vec::with_capacity(bounded_capacity(
+            &cursor,
+            self.header.record_count,
+            self.header.record_size as usize,
+        ));
 
         for _ in 0..self.header.record_count {
             let record = if let Some(schema) = &self.schema {
@@ -422,7 +427,7 @@ impl DbcParser {
 
     /// Parse a record without a schema
     fn parse_record_raw(&self, cursor: &mut Cursor<&[u8]>) -> Result<Record> {
-        let mut values = Vec::with_capacity(self.header.field_count as usize);
+        let mut values = Vec::with_capacity(bounded_capacity(cursor, self.header.field_count, 4));
 
         for _ in 0..self.header.field_count {
             // Without a schema, we assume all fields are 32-bit integers
